@@ -103,12 +103,17 @@ func (u *upstream) Serve() {
 	wg.Wait()
 
 	// stop all clients
+	// NOTE: they must not be stopped with the lock held: the read loop of a
+	// client which is following a redirection needs the lock to find (or
+	// create) the client of the target, and Stop waits for that read loop.
+	// No client is created after this point, createClient checks the quit
+	// with the lock held.
 	u.clientsMu.Lock()
 	clients := u.loadClients()
+	u.clientsMu.Unlock()
 	for _, c := range clients {
 		c.Stop()
 	}
-	u.clientsMu.Unlock()
 	close(u.done)
 }
 
